@@ -147,6 +147,10 @@ func construct(s *packet.Session, c cfgT, fname string) built {
 			return
 		}
 		lo, bs := leaseObs(h.VerifLeases())
+		if fname == "" { // no lease file configured: nothing is saved, only the table is observable
+			b = built{obs: "nofile " + lo, h: h, bindings: bs}
+			return
+		}
 		var d docT
 		txt, _ := os.ReadFile(fname)
 		if err := yaml.Unmarshal(txt, &d); err != nil || d.Net1 == nil || d.Net2 == nil {
@@ -171,6 +175,8 @@ func runNew(a []string) string {
 	fname := tmpName()
 	defer os.Remove(fname)
 	switch a[2] {
+	case "nofile": // LeaseFilename == ""
+		return construct(s, c, "").obs
 	case "err": // missing file
 	case "doc":
 		text, err := yaml.Marshal(docOfTokens(a[2:]))
@@ -236,6 +242,19 @@ func main() {
 		return
 	}
 
+	// corpus first: refutation witnesses and former panic inputs
+	if dir := os.Getenv("VERIF_CORPUS"); dir != "" {
+		if txt, err := os.ReadFile(filepath.Join(dir, "cases.txt")); err == nil {
+			for _, l := range strings.Split(string(txt), "\n") {
+				f := strings.Fields(l)
+				if len(f) < 2 || strings.HasPrefix(l, "#") {
+					continue
+				}
+				r.Do(f[0], f[1:]...)
+				r.Stat("corpus.cases", 1)
+			}
+		}
+	}
 	genDocs(r, rng.Fork())
 	files := histories(r, rng.Fork())
 	corruptions(r, rng.Fork(), files)
